@@ -87,3 +87,23 @@ V('C04', 'keys-always-rebound', O, 'edb.schema.objects.ObjectIndexBase.keys',
 # negative control: a copy under another spelling
 V('C04', 'neg-copy-by-slice', 'edb/schema/delta.py', 'edb.schema.delta.RenameObject._canonicalize',
   'quals = list(sn.quals_from_fullname(ref_name))', 'quals = [*sn.quals_from_fullname(ref_name)]', None)
+
+V('C04', 'unset-field-roles-swapped', S, F + 'unset_obj_field',
+  'refs_to = self._update_refs_to(obj_id, sclass, orig_refs, None)', 'refs_to = self._update_refs_to(obj_id, sclass, None, orig_refs)', 'C04.R7', 'unset_obj_field:_update_refs_to:roles')
+V('C04', 'update-obj-refs-swapped', S, F + 'update_obj',
+  'refs_to = self._update_refs_to(obj_id, sclass, orig_refs, new_refs)', 'refs_to = self._update_refs_to(obj_id, sclass, new_refs, orig_refs)', 'C04.R7', 'update_obj:_update_refs_to:roles')
+V('C04', 'chained-referrers-one-layer', S, 'edb.schema.schema.ChainedSchema.get_referrers',
+  '''            | self._global_schema.get_referrers(  # type: ignore [operator]
+                scls,
+                scls_type=scls_type,
+                field_name=field_name,
+            )
+''', '', 'C04.R8', 'ChainedSchema.get_referrers:all-layers')
+V('C04', 'rename-skips-exists-check', S, F + '_update_obj_name',
+  '''                if new_name in name_to_id:
+                    other_obj = self.get_by_id(
+                        name_to_id[new_name], type=so.Object)
+                    vn = other_obj.get_verbosename(self, with_parent=True)
+                    raise errors.SchemaError(
+                        f'{vn} already exists')
+''', '', 'C04.R9', 'name_to_id[new_name]:exists-check')
